@@ -48,7 +48,11 @@ func i64(s string) (int64, bool) {
 func stopBubble() {
 	if cur != nil {
 		close(cur.ch)
-		<-cur.done
+		select {
+		case <-cur.done:
+		case <-time.After(opTimeout):
+			hung = true
+		}
 		cur = nil
 	}
 }
@@ -66,45 +70,76 @@ func fmtKey(k ntske.Key, start time.Time) string {
 	return fmt.Sprintf("%d %d %d", k.ID, int64(k.Validity.NotBefore.Sub(start)), int64(k.Validity.NotAfter.Sub(start)))
 }
 
+// bstate is the state of one bubble (one history).
+type bstate struct {
+	start time.Time
+	p     *ntske.Provider
+	last  int64
+	seen  map[int][]byte
+	ls    *listeners // real IP listeners running in this bubble (use.new), or nil
+	use   useState
+}
+
+func (b *bstate) note(k ntske.Key) {
+	if len(k.Value) != 32 {
+		selfFails = append(selfFails, fmt.Sprintf("key %d has %d bytes", k.ID, len(k.Value)))
+	}
+	if v, ok := b.seen[k.ID]; ok {
+		if !bytes.Equal(v, k.Value) {
+			selfFails = append(selfFails, fmt.Sprintf("key %d changed its bytes", k.ID))
+		}
+	} else {
+		b.seen[k.ID] = append([]byte(nil), k.Value...)
+	}
+}
+
+// sleepTo advances the virtual clock to offset t. Virtual time only moves while every goroutine
+// of the bubble is durably blocked, so running listeners are parked first (listener.go).
+func (b *bstate) sleepTo(t int64) bool {
+	if t < b.last {
+		return false
+	}
+	if d := time.Duration(t) - time.Since(b.start); d > 0 {
+		if b.ls != nil {
+			b.ls.sleep(d, 0)
+		} else {
+			time.Sleep(d)
+		}
+	}
+	if int64(time.Since(b.start)) != t {
+		panic("virtual clock not at the requested offset")
+	}
+	b.last = t
+	return true
+}
+
 // serve runs inside the bubble.
 func serve(ch chan request) {
-	start := time.Now()
+	b := &bstate{start: time.Now(), seen: map[int][]byte{}}
+	defer func() {
+		if b.ls != nil {
+			b.ls.stop()
+		}
+	}()
+	start := b.start
+	note := b.note
+	sleepTo := b.sleepTo
 	var p *ntske.Provider
-	var last int64
-	seen := map[int][]byte{}
-	note := func(k ntske.Key) {
-		if len(k.Value) != 32 {
-			selfFails = append(selfFails, fmt.Sprintf("key %d has %d bytes", k.ID, len(k.Value)))
-		}
-		if v, ok := seen[k.ID]; ok {
-			if !bytes.Equal(v, k.Value) {
-				selfFails = append(selfFails, fmt.Sprintf("key %d changed its bytes", k.ID))
-			}
-		} else {
-			seen[k.ID] = append([]byte(nil), k.Value...)
-		}
-	}
-	sleepTo := func(t int64) bool {
-		if t < last {
-			return false
-		}
-		time.Sleep(time.Duration(t) - time.Since(start))
-		if int64(time.Since(start)) != t {
-			panic("virtual clock not at the requested offset")
-		}
-		last = t
-		return true
-	}
 	for rq := range ch {
 		rq.reply <- lib.Try(func() string {
 			t := rq.toks
 			switch {
+			case strings.HasPrefix(t[0], "use."):
+				ans := b.useOp(t)
+				p = b.p
+				return ans
 			case t[0] == "prov.new" && len(t) == 2:
 				at, ok := i64(t[1])
 				if !ok || at < 0 || p != nil || !sleepTo(at) {
 					return "bad-op"
 				}
 				p = ntske.NewProvider()
+				b.p = p
 				return "ok"
 			case t[0] == "prov.cur" && len(t) == 2:
 				at, ok := i64(t[1])
@@ -190,11 +225,17 @@ func serve(ch chan request) {
 	}
 }
 
+// opTimeout bounds (in real time) what one op may take: a bubble whose listeners could not be
+// parked or stopped would otherwise hang the harness. The bubble is then abandoned.
+const opTimeout = 60 * time.Second
+
+var hung bool
+
 func exec(t []string) string {
 	if len(t) == 0 {
 		return "bad-op"
 	}
-	if t[0] == "prov.new" {
+	if t[0] == "prov.new" || t[0] == "use.new" {
 		stopBubble()
 		startBubble()
 	}
@@ -202,8 +243,19 @@ func exec(t []string) string {
 		return "bad-op"
 	}
 	rq := request{toks: t, reply: make(chan string, 1)}
-	cur.ch <- rq
-	return <-rq.reply
+	select {
+	case cur.ch <- rq:
+	case <-time.After(opTimeout):
+		cur, hung = nil, true
+		return "hang"
+	}
+	select {
+	case ans := <-rq.reply:
+		return ans
+	case <-time.After(opTimeout):
+		cur, hung = nil, true
+		return "hang"
+	}
 }
 
 // ------------------------------------------------------------------ generator + direct oracle
